@@ -131,6 +131,18 @@ func main() {
 		fmt.Fprintf(os.Stderr, "driver: build failed (tooling, not a verdict): %v\n%s\n", err, out)
 		return
 	}
+	// the real, uninstrumented binary for the process-level parts (C07, C08)
+	desyncBin := ""
+	if id == "C07" || id == "C08" {
+		desyncBin = filepath.Join(scratch, "desync")
+		bc := exec.Command("go", "build", "-o", desyncBin, "./cmd/desync")
+		bc.Dir = repo
+		bc.Env = append(os.Environ(), "GOFLAGS=-mod=mod", "GOPROXY=off", "GOSUMDB=off", "GOTOOLCHAIN=local")
+		if out, err := bc.CombinedOutput(); err != nil {
+			fmt.Fprintf(os.Stderr, "driver: building the desync binary failed (tooling, not a verdict): %v\n%s\n", err, out)
+			return
+		}
+	}
 	buildS := time.Since(start).Seconds()
 
 	runJob := func(cfg wire.Config, name string) (*wire.ShardResult, string, error) {
@@ -140,7 +152,7 @@ func main() {
 		defer os.RemoveAll(cfg.Scratch)
 		j, _ := json.Marshal(cfg)
 		c := exec.Command(bin, "-test.run", "^Test"+id+"$", "-test.timeout", "6h", "-test.v")
-		c.Env = append(os.Environ(), "VERIF_CFG="+string(j), "VERIF_REPO="+repo)
+		c.Env = append(os.Environ(), "VERIF_CFG="+string(j), "VERIF_REPO="+repo, "VERIF_DESYNC_BIN="+desyncBin)
 		c.Dir = cfg.Scratch
 		var outBuf bytes.Buffer
 		c.Stdout, c.Stderr = &outBuf, &outBuf
